@@ -77,7 +77,7 @@ func Walk(ins []gen.Inst, key uint32, op ring.Operation, rf int, zoneAware bool)
 		}
 		taken[c.i] = true
 		w.IDs = append(w.IDs, in.ID)
-		if op.ShouldExtendReplicaSetOnState(in.State) {
+		if Extends(op, in.State) {
 			w.Extended = true
 			continue
 		}
@@ -96,7 +96,50 @@ func Healthy(in gen.Inst, op ring.Operation, timeoutSec int64) bool {
 
 // HealthyAt: the heartbeat is (AgeSec seconds + fracMs milliseconds) old, the timeout is timeoutMs.
 func HealthyAt(in gen.Inst, op ring.Operation, timeoutMs int64, fracMs int64) bool {
-	return op.IsInstanceInStateHealthy(in.State) && in.AgeSec*1000+fracMs <= timeoutMs
+	return StateHealthy(op, in.State) && in.AgeSec*1000+fracMs <= timeoutMs
+}
+
+// The tables of the four built-in operations, written out from their documentation (the model must
+// not ask the code under test which states an operation accepts or extends on).
+//
+//	Write:         healthy {ACTIVE};                   extends on every state but ACTIVE
+//	WriteNoExtend: healthy {ACTIVE};                   never extends
+//	Read:          healthy {ACTIVE, PENDING, LEAVING}; extends on every state but ACTIVE and LEAVING
+//	Reporting:     every state healthy;                never extends
+func opName(op ring.Operation) string {
+	switch op {
+	case ring.Write:
+		return "Write"
+	case ring.WriteNoExtend:
+		return "WriteNoExtend"
+	case ring.Read:
+		return "Read"
+	case ring.Reporting:
+		return "Reporting"
+	}
+	panic("model: not a built-in operation")
+}
+
+// StateHealthy: does the built-in operation accept an instance in that state.
+func StateHealthy(op ring.Operation, s ring.InstanceState) bool {
+	switch opName(op) {
+	case "Write", "WriteNoExtend":
+		return s == ring.ACTIVE
+	case "Read":
+		return s == ring.ACTIVE || s == ring.PENDING || s == ring.LEAVING
+	}
+	return true
+}
+
+// Extends: does an instance in that state enlarge the replica set of the built-in operation.
+func Extends(op ring.Operation, s ring.InstanceState) bool {
+	switch opName(op) {
+	case "Write":
+		return s != ring.ACTIVE
+	case "Read":
+		return s != ring.ACTIVE && s != ring.LEAVING
+	}
+	return false
 }
 
 // Expect is the expected lookup result.
